@@ -29,6 +29,7 @@ pub struct Workload {
     pub second_whoareyou: bool,
     pub garbage: bool,
     pub forged: bool,
+    pub replays: bool,
 }
 
 impl Workload {
@@ -52,6 +53,7 @@ impl Workload {
             second_whoareyou: rng.chance(1, 3),
             garbage: rng.chance(1, 3),
             forged: rng.chance(1, 3),
+            replays: false,
         }
     }
 
@@ -60,7 +62,7 @@ impl Workload {
             "faults_permille": {"drop": self.faults.drop, "dup": self.faults.dup, "delay": self.faults.delay},
             "enrless_contacts": self.with_enrless, "peers_lose_sessions": self.lose_sessions, "late_whoareyou_answers": self.late_wru,
             "unanswered_whoareyou_queries": self.never_wru, "nodes_total_lies": self.nodes_lies, "silent_peers": self.silent_peers,
-            "bursts": self.bursts, "second_whoareyou": self.second_whoareyou, "garbage_datagrams": self.garbage, "forged_handshakes": self.forged})
+            "bursts": self.bursts, "second_whoareyou": self.second_whoareyou, "garbage_datagrams": self.garbage, "forged_handshakes": self.forged, "replays": self.replays})
     }
 }
 
@@ -183,6 +185,25 @@ pub fn run_workload(seed: u64, w: &Workload) -> Engine {
                         let mut r2 = e.rng.fork(77);
                         let out = handshake_packet(&mut r2, &spec);
                         e.send_to_victim(i, addr, out.datagram, InClass::Crafted(format!("forged-handshake-variant-{variant}")));
+                    }
+                }
+                95..=99 if w.replays => {
+                    // re-inject a recorded handshake or WHOAREYOU at this later point of the exchange
+                    let cands: Vec<(SocketAddr, Option<usize>, InClass, Vec<u8>)> = e
+                        .trace
+                        .iter()
+                        .filter_map(|t| match &t.ev {
+                            Ev::Injected { from, peer, class: c @ (InClass::Handshake { .. } | InClass::WhoAreYou { .. }), bytes } => Some((*from, *peer, c.clone(), bytes.clone())),
+                            _ => None,
+                        })
+                        .collect();
+                    if !cands.is_empty() {
+                        let (from, peer, class, bytes) = cands[e.rng.usize(cands.len())].clone();
+                        let same = e.rng.chance(2, 3);
+                        let src = if same { from } else { e.peers[e.rng.usize(w.npeers)].sim.addr() };
+                        let same = src == from;
+                        let p = peer.unwrap_or(i);
+                        e.send_to_victim(p, src, bytes, InClass::Replay { of: Box::new(class), same_source: same });
                     }
                 }
                 80..=89 => {
@@ -498,7 +519,7 @@ pub fn check_c13(e: &Engine, w: &Workload, seed: u64, rep: &mut Report) -> Vec<&
                 _ => {}
             },
             Ev::Injected { from, peer: Some(p), class, .. } => {
-                let is_hs = matches!(class, InClass::Handshake { .. } | InClass::Crafted(_));
+                let is_hs = matches!(class, InClass::Handshake { .. } | InClass::Crafted(_) | InClass::Replay { .. });
                 if is_hs {
                     // accepted, consumed, or re-armed (a bad signature re-inserts the challenge
                     // and restarts its timer) - if it was still outstanding. Which of these is
